@@ -39,11 +39,26 @@ Put(al, k, v) == IF Has(al, k)
 \* ctx = [funcs |-> assoc name -> <<params, body>>, obj |-> assoc field -> value,
 \*        host |-> assoc name -> kind]   kind: <<"log">> (returns nothing) | <<"same">> (returns
 \*        its first argument) | <<"val", v>> (returns v)
-FuncsOf(prog) == LET idx == {i \in 1..Len(prog) : prog[i][1] = "func"} IN
+\* every function definition of the program, in textual order, wherever it is written
+\* (definitions are hoisted: inside blocks and inside other functions too)
+RECURSIVE FuncDefs(_, _), CaseDefs(_, _)
+FuncDefs(blk, i) ==
+  IF i > Len(blk) THEN <<>>
+  ELSE LET st == blk[i] IN
+       (CASE st[1] = "func" -> <<st>> \o FuncDefs(st[4], 1)
+          [] st[1] = "if" -> FuncDefs(st[3], 1) \o FuncDefs(st[4], 1)
+          [] st[1] \in {"while", "for"} -> FuncDefs(st[3], 1)
+          [] st[1] = "foreach" -> FuncDefs(st[5], 1)
+          [] st[1] = "switch" -> CaseDefs(st[3], 1)
+          [] OTHER -> <<>>) \o FuncDefs(blk, i + 1)
+CaseDefs(cs, i) == IF i > Len(cs) THEN <<>> ELSE FuncDefs(cs[i][3], 1) \o CaseDefs(cs, i + 1)
+
+FuncsOf(prog) == LET defs == FuncDefs(prog, 1)
+                     idx == 1..Len(defs) IN
                  \* later definitions of the same name replace earlier ones
-                 [n \in {prog[i][2] : i \in idx} |->
-                    LET last == CHOOSE i \in idx : prog[i][2] = n /\ \A j \in idx : prog[j][2] = n => j <= i
-                    IN <<prog[last][3], prog[last][4]>>]
+                 [n \in {defs[i][2] : i \in idx} |->
+                    LET last == CHOOSE i \in idx : defs[i][2] = n /\ \A j \in idx : defs[j][2] = n => j <= i
+                    IN <<defs[last][3], defs[last][4]>>]
 
 InitState(g, fuel) == [g |-> g, sc |-> <<>>, calls |-> <<>>, ret |-> NONE, st |-> "ok", fuel |-> fuel]
 
